@@ -168,6 +168,9 @@ def check_case(case):
         bad(sym, "one complete {} instruction".format(mnem), "{} <- bytes {}".format(why, body.hex().upper()))
     elif reserved != len(body):
         bad("listing reserves {} but {} emitted".format(c02d(reserved), len(body)), "equal", "bytes {}".format(body.hex().upper()))
+    elif (out["hex"][3] or "").upper() != body.hex().upper():
+        # the listing line of the statement shows the bytes it reserves the space for (an instruction has at most five)
+        bad("listing shows {} byte(s) for the {} emitted".format(c02d(len(out["hex"][3] or "") // 2), len(body)), "hex column " + body.hex().upper(), "hex column " + (out["hex"][3] or "-"))
     else:
         try:
             symvals = SYMVALS if "ren" not in case else {case["ren"][0]: 300, case["ren"][1]: 0x2000, "@stmt": 0x2001}
